@@ -1,8 +1,9 @@
 #!/bin/bash
 # seedrun.sh [seeded ids…]: evaluate seeded changes WITHOUT touching /repo: a scratch copy of /verif whose
 # harness depends on a private clone of /repo (current HEAD + working tree), removed afterwards.
+# SEEDRUN_ID=<n> selects separate scratch directories so that several runs can go on at the same time.
 set -u
-S=/tmp/seedrun; R=/tmp/seedrun-repo
+S=/tmp/seedrun${SEEDRUN_ID:-}; R=/tmp/seedrun-repo${SEEDRUN_ID:-}
 rm -rf $R; git clone -q /repo $R || exit 2
 (cd /repo && git diff) | (cd $R && git apply 2>/dev/null)
 mkdir -p $S; rsync -a --delete --exclude replays --exclude .git /verif/ $S/
